@@ -36,6 +36,27 @@ class Monitor:
         self.fails = []
 
 
+HARNESS_ERRORS = []
+
+
+def _guarded(condition):
+    """a bug in a monitor must never look like a failure (or a success) of the code under test"""
+    import traceback
+
+    @functools.wraps(condition)
+    def guarded(*a, **k):
+        import numpy as np
+        try:
+            # the monitor's own arithmetic runs with underflow ignored (forsys arms np.seterr(all='raise') globally);
+            # the code under test has already returned at this point
+            with np.errstate(under="ignore"):
+                return condition(*a, **k)
+        except Exception:
+            HARNESS_ERRORS.append(condition.__name__ + ": " + traceback.format_exc()[-900:])
+            return True
+    return guarded
+
+
 class Installed:
     def __init__(self):
         self._undo = []
@@ -45,6 +66,7 @@ class Installed:
         raw = owner.__dict__[name] if isinstance(owner, type) else getattr(owner, name)
         is_static = isinstance(raw, staticmethod)
         orig = raw.__func__ if is_static else raw
+        condition = _guarded(condition)
         if icontract is not None:
             w = icontract.ensure(condition, error=PropertyBroken)(orig)
             for cap, sname in snapshots:
